@@ -352,6 +352,14 @@ def load_and_continue(data, loader, flag_load, trace, deep):
         "objects": len(snap),
         "ids": None,
     }
+    if not deep:
+        # the copy is itself a graph like any other: pickling it again gives
+        # the same graph once more
+        try:
+            again = pickle.loads(nrpickler.dumps(root, protocol=4))
+            out["second_generation_digest"] = digest(canon_snapshot(canonical_world(again)))
+        except Exception as exc:  # pylint: disable=broad-except
+            out["second_generation_exc"] = type(exc).__name__
     out["outcomes"] = run_continuation(ex, trace, deep)
     final = canon_snapshot(canonical_world(root if not isinstance(root, C.WorldBox) else root), with_uid=False)
     out["final_digest"] = digest(final)
@@ -871,6 +879,12 @@ class C10(engine.Property):
                 "C10/copy-not-isomorphic",
                 {"objects_original": st.nobjects, "objects_copy": res["objects"], "diff(copy,orig)": diff, "mode": mode, "loader": op["loader"], "proto": op["proto"]},
             )
+        if "second_generation_exc" in res:
+            return engine.viol(
+                "C10/copy-cannot-be-pickled-again:" + res["second_generation_exc"], {"mode": mode}
+            )
+        if res.get("second_generation_digest", st.canon0_digest) != st.canon0_digest:
+            return engine.viol("C10/second-generation-copy-not-isomorphic", {"mode": mode})
         for i, (a, b) in enumerate(zip(st.outcomes, res["outcomes"])):
             if a != b:
                 return engine.viol(
